@@ -243,6 +243,36 @@ def excl_check(db, fn, effect_blocks, deny_pred, reeval_blocks=()):
     return (not bad), deny, bad
 
 
+def pass_check(db, fn, edges, through_blocks, exits):
+    """Must-pass-through: every feasible path entry -> (one of `edges`) -> (a block in `exits`)
+    passes a block of `through_blocks` (before or after the edge).  Paths are followed with
+    discriminant knowledge, so a later re-test of the same discriminant (drop glue) cannot flip.
+    Returns (ok, n_edges_feasible, offending paths)."""
+    g = graph(fn)
+    through = set(through_blocks)
+    g.reach_k([(0, frozenset())], avoid_blocks=through)
+    states = list(g._last_seen.keys())
+    bad = []
+    nfeas = 0
+    for (b0, tb, lab) in edges:
+        starts = []
+        for (b, know) in states:
+            if b != b0:
+                continue
+            k = g.edge_know(b0, tb, lab, know)
+            if k is not None:
+                starts.append((tb, k))
+        if not starts:
+            continue
+        nfeas += 1
+        blocks = g.reach_k(starts, avoid_blocks=through)
+        for e in exits:
+            if e in blocks:
+                bad.append([b0] + g.path_k(blocks, e))
+                break
+    return (not bad), nfeas, bad
+
+
 def line_of(fn, bb, idx=None):
     b = fn["blocks"][bb]
     if idx is not None and idx != "term":
